@@ -855,10 +855,85 @@ def applicable(u, marking):
     return True
 
 
-def annot(u, leaf):
+# declared-call forms written into every annotated TARGET callable:
+# (form, declared call name, positional names, keyword map, mark of the callee's distinctive attribute)
+FORMS = [
+    ("local-function", "t_leaf", ["z"], {}, "t_leaf"),
+    ("module-member", "lib.d_mod", ["z"], {}, "d_mod"),
+    ("module-alias-member", "lb.d_alias", ["z"], {}, "d_alias"),
+    ("from-import-by-keyword", "d_from", [], {"w": "z"}, "d_from"),
+    ("local-static-method", "TDS.sm", ["z"], {}, "TDS_sm"),
+    ("local-class-constructor", "TDC", ["z", "z"], {}, "TDC"),
+    ("from-imported-class-constructor", "LDC", ["z", "z"], {}, "LDC"),
+    ("from-imported-class-static-method", "LDS.sm", ["z"], {}, "LDS_sm"),
+    ("module-member-class-constructor", "lib.LMC", ["z", "z"], {}, "LMC"),
+    ("module-member-static-method", "lib.LMS.sm", ["z"], {}, "LMS_sm"),
+]
+LIB_FORMS = [("local-function", "l_leaf", ["z"], {}, "l_leaf")]
+# the same call forms written as REAL calls in plain functions (information only: which forms the code follows at all)
+DIRECT = {"t_leaf": "t_leaf(z)", "d_mod": "lib.d_mod(z)", "d_alias": "lb.d_alias(z)", "d_from": "d_from(w=z)",
+          "TDS_sm": "TDS.sm(z)", "TDC": "x = TDC(z)", "LDC": "x = LDC(z)", "LDS_sm": "LDS.sm(z)",
+          "LMC": "x = lib.LMC(z)", "LMS_sm": "lib.LMS.sm(z)"}
+
+LIB_CALLEES = """
+
+def d_mod(w):
+    return w.body_d_mod
+
+
+def d_alias(w):
+    return w.body_d_alias
+
+
+def d_from(w):
+    return w.body_d_from
+
+
+class LDC:
+    def __init__(self, w):
+        self.v = w.body_LDC
+
+
+class LDS:
+    @staticmethod
+    def sm(w):
+        return w.body_LDS_sm
+
+
+class LMC:
+    def __init__(self, w):
+        self.v = w.body_LMC
+
+
+class LMS:
+    @staticmethod
+    def sm(w):
+        return w.body_LMS_sm
+"""
+TARGET_CALLEES = """
+
+class TDC:
+    def __init__(self, w):
+        self.v = w.body_TDC
+
+
+class TDS:
+    @staticmethod
+    def sm(w):
+        return w.body_TDS_sm
+"""
+
+
+def forms_of(u):
+    return FORMS if u.file == "target" else LIB_FORMS
+
+
+def annot(u):
     m = u.mark
+    calls = ", ".join("(" + json.dumps(name) + ", (" + json.dumps(pos) + ", " + json.dumps(kw) + "))"
+                      for _, name, pos, kw, _ in forms_of(u))
     return (f"@rattr_results(gets={{\"z.dg_{m}\"}}, sets={{\"z.ds_{m}\"}}, dels={{\"z.dd_{m}\"}}, "
-            f"calls=[(\"{leaf}\", ([\"z\"], {{}}))])\n")
+            f"calls=[{calls}])\n")
 
 
 def build_project(assign):
@@ -871,14 +946,15 @@ def build_project(assign):
         if m == "ignore":
             return indent + "@rattr_ignore\n"
         if m == "results":
-            return indent + annot(us[uid], leaf)
+            return indent + annot(us[uid])
         return ""
 
     def file_src(prefix, leaf, f1, f2, f2_async, lam, c, s):
         out = [HDR]
         if prefix == "t":
-            out.append("import lib\nfrom lib import lf1, lf2, LC, LS\n")
+            out.append("import lib\nimport lib as lb\nfrom lib import lf1, lf2, LC, LS, d_from, LDC, LDS\n")
         out.append(f"\n\ndef {leaf}(z):\n    return z.body_{leaf}\n")
+        out.append(TARGET_CALLEES if prefix == "t" else LIB_CALLEES)
         out.append(f"\n\n{decos(f1, leaf)}def {f1}(z):\n    return z.body_{f1}\n")
         a = "async " if f2_async else ""
         out.append(f"\n\n{decos(f2, leaf)}{a}def {f2}(z):\n    return z.body_{f2}\n")
@@ -898,6 +974,8 @@ def build_project(assign):
         call = f"    x = {u.key}(p.q)\n" if u.kind == "cls" else f"    {u.key}(p.q)\n"
         callers.append(f"\n\ndef c_{u.mark}(p):\n{call}")
     callers.append("\n\ndef c_mod_lf1(p):\n    lib.lf1(p.q)\n")
+    for cm, stmt in DIRECT.items():
+        callers.append(f"\n\ndef b_{cm}(z):\n    {stmt}\n")
     tgt += "".join(callers)
     return {"target.py": tgt, "lib.py": lib}, patterns
 
@@ -976,17 +1054,42 @@ def judge_project(assign, results, inlinable):
                         yield "declared-name-of-unannotated-callable", {"unit": u.uid, "in": key}
                     elif not own and not caller:
                         yield "declared-name-in-unrelated-entry", {"unit": u.uid, "in": key}
-        # --- (ii) declared entries: exact
+        # --- (ii) declared entries: exactly the declared names, every declared call followed and substituted
         if st == "declared":
-            want_own = {("gets", "z.", "dg", u.mark), ("sets", "z.", "ds", u.mark), ("dels", "z.", "dd", u.mark),
-                        ("gets", "z.", "body", leaf)}
+            forms = forms_of(u)
+
+            def check(e, prefix, extra_names, who):
+                """own entry / caller entry against the declaration; yields (signature, detail)"""
+                got = marks(e)
+                if any(m[2] == "body" and m[3] == u.mark for m in got):
+                    return                        # body analysed: already reported above
+                for k, kind in (("gets", "dg"), ("sets", "ds"), ("dels", "dd")):
+                    if (k, prefix, kind, u.mark) not in got:
+                        if any(m[0] == k and m[2] == kind and m[3] == u.mark for m in got):
+                            yield f"declared-names-not-substituted:{lb}{where}", {who: e}
+                        else:
+                            yield f"declared-names-not-inlined:{lb}{where}", {who: e}
+                for form, name, _, _, cm in forms:
+                    hits = [m for m in got if m[2] == "body" and m[3] == cm]
+                    if not hits:
+                        yield f"declared-call-not-followed:{form}{where}", {who: e, "declared_call": name}
+                    elif ("gets", prefix, "body", cm) not in hits:
+                        yield f"declared-call-not-substituted:{form}{where}", {who: e, "declared_call": name}
+                allowed = {(u.mark, "dg"), (u.mark, "ds"), (u.mark, "dd")} | {(f[4], "body") for f in forms}
+                for m in got:
+                    if (m[3], m[2]) not in allowed:
+                        yield f"annotated-entry-not-exactly-declared:{lb}", {who: e, "extra": list(m)}
+                for k in ("gets", "sets", "dels"):
+                    for n in e.get(k, []):
+                        if not MARK_RE.search(n) and n not in extra_names:
+                            yield f"annotated-entry-not-exactly-declared:{lb}", {who: e, "extra": n}
+
             if u.file == "target" and u.key in results:
                 e = results[u.key]
-                if marks(e) != want_own or sorted(e.get("calls", [])) != [leaf + "()"] \
-                        or sorted(e["gets"]) != sorted([f"z.dg_{u.mark}", f"z.body_{leaf}"]) \
-                        or sorted(e["sets"]) != [f"z.ds_{u.mark}"] or sorted(e["dels"]) != [f"z.dd_{u.mark}"]:
-                    if not any(m[2] == "body" and m[3] == u.mark for m in marks(e)):
-                        yield f"annotated-entry-not-exactly-declared:{lb}", {"unit": u.uid, "entry": e}
+                yield from check(e, "z.", {"z.v"}, "entry")
+                if sorted(e.get("calls", [])) != sorted(f[1] + "()" for f in forms) \
+                        and not any(m[2] == "body" and m[3] == u.mark for m in marks(e)):
+                    yield f"annotated-entry-not-exactly-declared:{lb}", {"entry": e, "calls": e.get("calls")}
             for ck in ([f"c_{u.mark}"] + (["c_mod_lf1"] if u.uid == "lf1" else [])):
                 if ck not in inlinable:
                     continue                      # the pinned code never inlines this callee kind (not C11's business)
@@ -994,26 +1097,27 @@ def judge_project(assign, results, inlinable):
                 if e is None:
                     yield "caller-missing-from-results", {"caller": ck}
                     continue
-                got = {m for m in marks(e)}
-                if any(m[2] == "body" and m[3] == u.mark for m in got):
-                    continue                      # already reported above
                 if u.kind == "cls" and u.file == "lib":
                     # [interp] imported classes are mis-bound by the pinned code (C06/C09 finding): presence only
-                    have = {(m[0], m[2], m[3]) for m in got}
-                    need = {("gets", "dg", u.mark), ("sets", "ds", u.mark), ("dels", "dd", u.mark), ("gets", "body", leaf)}
-                    if not need <= have:
+                    have = {(m[0], m[2], m[3]) for m in marks(e)}
+                    need = {("gets", "dg", u.mark), ("sets", "ds", u.mark), ("dels", "dd", u.mark)} | \
+                           {("gets", "body", f[4]) for f in forms}
+                    if not need <= have and not any(m[2] == "body" and m[3] == u.mark for m in marks(e)):
                         yield f"declared-names-not-inlined:{lb}{where}", {"caller": ck, "entry": e}
                     continue
-                need = {("gets", "p.q.", "dg", u.mark), ("sets", "p.q.", "ds", u.mark), ("dels", "p.q.", "dd", u.mark),
-                        ("gets", "p.q.", "body", leaf)}
-                if got != need:
-                    missing = need - got
-                    if any(m[2] == "body" for m in missing) and not any(m[2] != "body" for m in missing):
-                        yield f"declared-call-not-followed:{lb}{where}", {"caller": ck, "entry": e}
-                    elif {(m[0], m[2], m[3]) for m in got} == {(m[0], m[2], m[3]) for m in need}:
-                        yield f"declared-names-not-substituted:{lb}{where}", {"caller": ck, "entry": e}
-                    else:
-                        yield f"declared-names-not-inlined:{lb}{where}", {"caller": ck, "entry": e}
+                yield from check(e, "p.q.", {"p.q", "p.q.v", "x", "x.v"}, "caller_entry")
+    # --- the callees of declared calls appear only where a declaration (or a real call) puts them
+    declared_units = {u.uid for u in units() if u.kind != "holder" and status(u) == "declared"}
+    for _, name, _, _, cm in FORMS:
+        ok_keys = {name, "b_" + cm}
+        for u in units():
+            if u.uid in declared_units and u.file == "target":
+                ok_keys |= {u.key, f"c_{u.mark}"}
+        if cm == "t_leaf":
+            continue
+        for key, entry in results.items():
+            if key not in ok_keys and any(m[2] == "body" and m[3] == cm for m in marks(entry)):
+                yield "body-attribute-in-unrelated-entry", {"callee": name, "in": key}
 
 
 def stream_cli(res, rng, tier):
@@ -1086,6 +1190,8 @@ def stream_cli(res, rng, tier):
                         if any(x[2] == "body" and x[3] == u.mark for x in marks(results.get(ck, {}))):
                             inlinable.add(ck)
                 res.extra["baseline_inlined_callers"] = sorted(inlinable)
+                res.extra["direct_call_forms_followed"] = {
+                    f[0]: any(x[2] == "body" and x[3] == f[4] for x in marks(results.get("b_" + f[4], {}))) for f in FORMS}
                 for ck in ("c_tf1", "c_tf2", "c_TC", "c_TS_sm", "c_lf1", "c_lf2", "c_tl", "c_mod_lf1", "c_LC"):
                     if ck not in inlinable:
                         res.internal_errors.append({"what": "baseline project: unmarked callee not inlined", "caller": ck})
@@ -1114,7 +1220,10 @@ def run(tier, seed, build):
                 "(every tree position x 35 replacement literals of every kind, element drop / append / duplicate, key removed / renamed / "
                 "**-unpacked / made positional, extra key, extra positional, **d, key=None); D: {def, async def, class, static method, "
                 "lambda} x decorator lists of length <= 2 over 17 decorator forms x exclusion-pattern sets; B: generated two-file projects "
-                "through the real CLI, subsets of 10 markable callables per marking kind + mixed assignments. non-trivial = distinct "
+                "through the real CLI, subsets of 10 markable callables per marking kind + mixed assignments; every annotated target callable declares "
+                "calls in 10 forms (local function, `lib.f`, `lb.f` through an alias, from-import by keyword, local / from-imported / module-member "
+                "static method and class constructor) into the followed import, each callee with its own distinctive attribute that must show up, "
+                "substituted, in the annotated entry and in its caller. non-trivial = distinct "
                 "accepted identifier (N), distinct decorator text that is not the empty well-formed annotation (A), distinct (kind, decorators, "
                 "verdicts) (D), distinct non-empty assignment (B)")
     rng = random.Random(seed)
@@ -1131,6 +1240,8 @@ def run(tier, seed, build):
         "[interp] a declared call name keeps rattr's spelling of call names (trailing `()` removed)",
         "[interp] callers of an imported class annotated with rattr_results are only required to show the declared names (argument binding of "
         "imported classes is C06/C09's finding)",
+        "[interp] a declared constructor call names the instance explicitly as its first positional name ((\"Cls\", ([inst, arg], {}))): no "
+        "instance is synthesised for declared calls",
         "identifier fragment: ASCII; `\\w` of re_rattr_name matches non-ASCII word characters, not modelled",
         "re.fullmatch on user patterns is a parameter of the model (verdicts computed by CPython's re in the harness)",
         "a crash on a decorator get_attrname cannot name (`@d[0]`) is C07-K2's finding and is not judged by C11",
